@@ -3,6 +3,7 @@
 
 use crate::driver::{self, audit, open_nomt, writes_of, Act, AuditFlags, Batch, Cfg, B3};
 use crate::engine::{fnv_str, Engine, Outcome, Plan, Violation};
+use crate::imgdec;
 use crate::refmodel::{self, Kv, Model};
 use crate::util::{self, hex, key_from_bits, kshort, DirImage, Key, Scratch};
 use nomt::{FinishedSession, HashAlgorithm, Nomt, Overlay, SessionParams};
@@ -279,6 +280,10 @@ struct Exec<'a> {
     model: Model,
     uni: Vec<Key>,
     flags: AuditFlags,
+    /// decode the on-disk image at every quiescent point: "c16" (structure + kv + merkle) / "c19" (+ leaks)
+    image: Option<String>,
+    /// (ln_bump, bbn_bump, keys) observed at every quiescent point
+    bumps: Vec<(u32, u32, usize)>,
     overlays: BTreeMap<usize, (Option<Overlay>, MOverlay)>,
     /// id of the overlay whose commit was the last commit (None otherwise)
     last_commit_overlay: Option<usize>,
@@ -311,7 +316,44 @@ impl<'a> Exec<'a> {
         let d = self.state_digest();
         self.out.states.push(d);
         audit::<B3>(self.n(), &self.model, &self.uni, self.flags)
-            .map_err(|m| viol("audit", format!("{when}: {m}")))
+            .map_err(|m| viol("audit", format!("{when}: {m}")))?;
+        if let Some(mode) = self.image.clone() {
+            let img = DirImage::snapshot(&self.dir).map_err(|e| viol("snapshot", format!("{e}")))?;
+            let opts = imgdec::CheckOpts {
+                structure: true,
+                kv_equals_model: true,
+                merkle: true,
+                leaks: mode == "c19",
+            };
+            let rep = imgdec::check_image::<B3>(&img, &self.model.kv, &opts)
+                .map_err(|m| viol("image", format!("{when}: on-disk image: {m}")))?;
+            if mode == "c19" {
+                let occ = self.n().hash_table_utilization().occupied;
+                if occ != rep.full_buckets || occ != rep.merkle.reachable_stored {
+                    return Err(viol(
+                        "occupancy",
+                        format!("{when}: hash_table_utilization().occupied = {occ}, full buckets on disk = {}, stored pages reachable from the root = {}", rep.full_buckets, rep.merkle.reachable_stored),
+                    ));
+                }
+                if self.model.kv.is_empty() && occ != 0 {
+                    return Err(viol("occupancy", format!("{when}: store is empty but occupied = {occ}")));
+                }
+            }
+            self.bumps.push((rep.ln_bump, rep.bbn_bump, rep.keys));
+            let g = &mut self.out.goals;
+            if rep.overflow_values > 0 { g.push("img:overflow-value"); }
+            if rep.pointer_page_values > 0 { g.push("img:overflow-pointer-pages"); }
+            if rep.merkle.elided_needed > 0 { g.push("img:page-elided"); }
+            if rep.merkle.tombstones > 0 { g.push("img:tombstone"); }
+            if rep.merkle.misprobes > 0 { g.push("img:misprobe"); }
+            if rep.merkle.max_page_depth >= 2 { g.push("img:page-depth>=2"); }
+            if rep.bbns > 1 { g.push("img:multi-bbn"); }
+            if rep.leaves > 1 { g.push("img:multi-leaf"); }
+            if rep.ln_free > 0 { g.push("img:ln-free-list"); }
+            if rep.ln_free_pages > 1 { g.push("img:ln-free-list-2-pages"); }
+            if rep.bbn_free > 0 { g.push("img:bbn-free-list"); }
+        }
+        Ok(())
     }
 
     /// The view of a (model-valid, fresh) chain given newest-first ids.
@@ -777,6 +819,8 @@ impl HistX {
             model,
             uni,
             flags,
+            image: case["image"].as_str().map(|s| s.to_string()),
+            bumps: vec![],
             overlays: BTreeMap::new(),
             last_commit_overlay: None,
             prepared: BTreeMap::new(),
